@@ -1,5 +1,6 @@
 """C20 configuration for ./check"""
 CONF = {
+    'coq_sample': 30,   # cases re-evaluated inside Coq by vm_compute against the extracted runner's output
     'interesting': ['partial-read', 'empty-slice', 'skip-batch', 'close-mid-batch', 'close-before-first', 'loss-errors'],
     'rule': 'Delivery histories (0-5 batches of 0-4 Reassembly{Bytes,Skip}, empty slices, empty batches, skips -1/1/7/100000, '
             'slice lengths 0..17 and 64/255/1500) x consumer programs (Read sizes 0..4096, read-until-EOF loops, Close before the '
